@@ -41,7 +41,13 @@ def make_interp():
 
     # StructuredTypeUnmarshaller.__call__: the required-keys loop (TypedDict targets)
     def inv(I, path, env, k):
-        kw = env.lookup("kwargs")
+        import ast as _ast
+        if "KW" not in _ROLE:
+            _m, _c, _node = I.src.find_def(f"{UN}.StructuredTypeUnmarshaller.__call__")
+            # the keyword-argument dict: the local assigned from the dict comprehension (by role, not by name)
+            _ROLE["KW"] = next((a.targets[0].id for a in _ast.walk(_node) if isinstance(a, _ast.Assign) and len(a.targets) == 1
+                                and isinstance(a.targets[0], _ast.Name) and isinstance(a.value, _ast.DictComp)), "kwargs")
+        kw = env.lookup(_ROLE["KW"])
         slf = env.lookup("self")
         t = to_val(slf.fields["t"])
         n = kw.n if not isinstance(kw.n, int) else z3.IntVal(kw.n)
@@ -51,6 +57,7 @@ def make_interp():
     return I
 
 
+_ROLE = {}
 required_witness = z3.Function("required_witness", Val, IntS, IntS)
 
 
